@@ -206,7 +206,9 @@ static void run_program(Rng& r) {
   for (int l = 0; l < nleaves; ++l) {
     sk.emplace_back(new count_min_sketch<W>(nh, nb, seed));
     md.emplace_back(nh, nb, seed);
-    const uint64_t nupd = r.chance(0.15) ? 0 : r.below(T ? 4000 : 1200);
+    const bool tiny_total = std::is_floating_point<W>::value && r.chance(0.08);   // a few updates of weight 1/64: total weight in (0, 1)
+    const uint64_t nupd = tiny_total ? 1 + r.below(20) : (r.chance(0.15) ? 0 : r.below(T ? 4000 : 1200));
+    if (tiny_total) count("fractional_total_below_one_leaves");
     const int wmode = int(r.below(4));
     int prev_kind = -1; std::string prev_key;
     for (uint64_t i = 0; i < nupd; ++i) {
@@ -219,6 +221,7 @@ static void run_program(Rng& r) {
         default: w = W(r.chance(0.02) ? (uint64_t(1) << 40) : r.below(17)); break;
       }
       if (std::is_floating_point<W>::value && r.chance(0.3)) w = W(double(r.below(64)) / 8.0);   // dyadic fractions: sums stay exact
+      if (tiny_total) w = W(1.0 / 64.0);
       if (w == 0) count("zero_weight");
       if (wmode == 0 && w == W(1) && r.coin()) {   // default-weight overload
         switch (it.kind) { case 0: sk[l]->update(static_cast<uint64_t>(it.u)); break; case 1: sk[l]->update(static_cast<int64_t>(it.u)); break;
@@ -233,7 +236,7 @@ static void run_program(Rng& r) {
       if (it.kind == 2 && it.s.find('\0') != std::string::npos) count("embedded_nul_string_updates");
     }
     observe(*sk[l], md[l], universe, r, "updates", true);
-    if (r.chance(0.4)) {
+    if (tiny_total || r.chance(0.4)) {
       count_min_sketch<W> d = roundtrip(*sk[l], r, Tk);
       observe(d, md[l], universe, r, "roundtrip", false);
       if (r.coin()) { sk[l].reset(new count_min_sketch<W>(std::move(d))); count("continue_on_restored"); }
@@ -270,6 +273,17 @@ static void run_program(Rng& r) {
                  G().cur_desc + " other=" + std::to_string(h2) + "x" + std::to_string(cells / h2));
         ++tried; count("same_cell_count_other_shape_merges");
       }
+    }
+    {  // the same refusals when the operand is an rvalue, also into a still-empty target (which must stay as configured)
+      count_min_sketch<W> fresh(nh, nb, seed);
+      for (int v = 0; v < 3; ++v) {
+        count_min_sketch<W> bad(v == 0 ? uint8_t(nh == 255 ? 254 : nh + 1) : nh, v == 1 ? nb + 1 : nb, v == 2 ? seed + 1 : seed);
+        bad.update(uint64_t(5), W(2));
+        { count_min_sketch<W> t(bad); VF_CHECK(throws([&] { fresh.merge(std::move(t)); }), Tk + "incompatible-merge-accepted|rvalue-into-empty", G().cur_desc + " variant=" + std::to_string(v)); }
+        { count_min_sketch<W> t(bad); VF_CHECK(throws([&] { sk[0]->merge(std::move(t)); }), Tk + "incompatible-merge-accepted|rvalue", G().cur_desc + " variant=" + std::to_string(v)); }
+      }
+      VF_CHECK(fresh.is_empty() && fresh.get_num_hashes() == nh && fresh.get_num_buckets() == nb && fresh.get_seed() == seed, Tk + "refused-merge-changed-empty-target", G().cur_desc);
+      count("refused_rvalue_merges");
     }
     observe(*sk[0], md[0], universe, r, "refused-merges", false);
     count("refused_merges");
